@@ -28,6 +28,7 @@ Prior(T) ==
   ELSE IF T = "f64" THEN <<"f64", <<64, 30, 0, 0, 0, 0, 0, 0>>>>
   ELSE IF T = "str" THEN <<"str", <<112, 114, 105, 111, 114>>>>
   ELSE IF T = "null" THEN <<"nil">>
+  ELSE IF T = "tuple_i32_str_f64" THEN <<"arr", <<IntSmall(0), <<"str", <<>>>>, <<"f64", <<0, 0, 0, 0, 0, 0, 0, 0>>>>>>>>      \* default constructed
   ELSE IF T \in {"tp_ns", "tp_ms", "dur_ns"} THEN <<"ts", FALSE, Zeros(8), 0>>
   ELSE IF T \in {"tp_s", "dur_s"} THEN <<"dur", 1, IntSmall(0)>>
   ELSE IF T = "vec_u8" THEN <<"bin", <<>>>>
@@ -41,6 +42,9 @@ Fresh(T) ==
   ELSE IF T = "str" THEN <<"str", <<>>>>
   ELSE IF T = "vec_i32" THEN <<"arr", <<>>>>
   ELSE IF T = "vec_u8" THEN <<"bin", <<>>>>
+  ELSE IF T = "f64" THEN <<"f64", <<0, 0, 0, 0, 0, 0, 0, 0>>>>
+  ELSE IF T = "f32" THEN <<"f32", <<0, 0, 0, 0>>>>
+  ELSE IF T = "bool" THEN <<"bool", FALSE>>
   ELSE Prior(T)
 
 ByPolicy(p, code) == IF p = "throw" THEN <<"err", code>> ELSE <<"skip">>
@@ -123,7 +127,7 @@ TsToNs(v) ==    \* <<"ts", neg, mag, nsec>> -> target time_point<ns>: representa
 -----------------------------------------------------------------------------
 (* Typed load of one value into a target of type T (MessagePack data model)  *)
 
-RECURSIVE LoadLeaf(_, _, _), LoadElems(_, _, _, _, _), LoadMapPairs(_, _, _, _, _, _)
+RECURSIVE LoadLeaf(_, _, _), LoadElems(_, _, _, _, _), LoadMapPairs(_, _, _, _, _, _), LoadTuple(_, _, _, _)
 
 \* order of std::map keys: strings by bytes, integers by value
 KeyLess(a, b) ==
@@ -158,6 +162,16 @@ LoadElems(items, E, pol, i, acc) ==
        IF r[1] = "err" THEN r
        ELSE IF r[1] = "any" THEN r
        ELSE LoadElems(items, E, pol, i + 1, Append(acc, IF r[1] = "val" THEN r[2] ELSE Fresh(E)))
+
+\* components of std::tuple<int32_t, std::string, double>: a skipped component keeps its (value-initialised) content, the following
+\* components are still loaded
+TupleTypes == <<"i32", "str", "f64">>
+LoadTuple(items, pol, i, acc) ==
+  IF i > 3 THEN <<"val", <<"arr", acc>>>>
+  ELSE LET r == LoadLeaf(items[i], TupleTypes[i], pol) IN
+       IF r[1] = "err" THEN r
+       ELSE IF r[1] \notin {"val", "skip"} THEN <<"any">>
+       ELSE LoadTuple(items, pol, i + 1, Append(acc, IF r[1] = "val" THEN r[2] ELSE Fresh(TupleTypes[i])))
 
 \* XML archive: every scalar is text.  Only the well-defined part is prescribed; the rest is left open ("any"):
 \* null vs empty (the archive cannot tell them apart), containers given where a scalar is expected, numeric-looking strings.
@@ -216,7 +230,8 @@ LoadLeaf(v, T0, pol) ==
   LET k == v[1]
       T == TypeAlias(T0) IN
   IF T0 = "pair_str_i32" THEN (IF ShapeOfPair(v) /\ IntFits(v[2][2][2][2], v[2][2][2][3], "i32") THEN <<"val", v>> ELSE <<"any">>)
-  ELSE IF T0 = "tuple_i32_str_f64" THEN (IF ShapeOfTuple(v) /\ IntFits(v[2][1][2], v[2][1][3], "i32") THEN <<"val", v>> ELSE <<"any">>)
+  ELSE IF T0 = "tuple_i32_str_f64" THEN        \* std::tuple<int32_t, std::string, double>: an array whose elements load into the components
+       (IF k = "nil" THEN <<"any">> ELSE IF k # "arr" THEN Mismatch(pol) ELSE IF Len(v[2]) # 3 THEN <<"any">> ELSE LoadTuple(v[2], pol, 1, <<>>))
   ELSE IF T0 = "enum_color" /\ ~(k = "str" /\ v[2] \in EnumColorNames) THEN <<"any">>
   ELSE IF T0 # T /\ k = "nil" THEN <<"any">>                    \* null into optional / smart pointer: resets the target (left open here)
   ELSE IF T0 = "arr3_i32" /\ ~(k = "arr" /\ Len(v[2]) = 3) THEN <<"any">>
@@ -312,7 +327,7 @@ OpenKind(v, want, pol) ==      \* "enter" | "skip" | <<"err", code>> | <<"any">>
   IF pol.arch = "xml" THEN        \* a scope is an element with at least one child element; null / empty containers are left open
        (IF v[1] = "absent" THEN <<"skip">>
         ELSE IF v[1] \in {"arr", "map"} THEN (IF v[1] = want /\ Len(v[2]) > 0 THEN <<"enter">> ELSE <<"any">>)
-        ELSE IF v[1] = "nil" \/ (v[1] = "str" /\ v[2] = <<>>) THEN <<"any">>
+        ELSE IF v[1] = "nil" \/ (v[1] = "str" /\ v[2] = <<>>) THEN (IF pol.mm = "skip" THEN <<"skip">> ELSE <<"any">>)   \* an element without children is never entered
         ELSE Mismatch(pol))
   ELSE IF v[1] = "nil" /\ pol.arch \notin {"msgpack", "json"} /\ pol.mm = "throw" THEN <<"any">>
   ELSE IF v[1] = "absent" \/ v[1] = "nil" THEN <<"skip">>
